@@ -42,6 +42,7 @@ enum Sig {
     Position,
     ProtocolFee,
     Funder,
+    RewardAuth,
 }
 
 #[derive(Clone, Debug, PartialEq, Eq)]
@@ -114,6 +115,7 @@ fn orig(role: &Role, u: &Uni, l: &Ledger) -> Pubkey {
         Role::Signer(Sig::Position) => u.lp.owner,
         Role::Signer(Sig::ProtocolFee) => u.cfg.collect_protocol_fees_authority,
         Role::Signer(Sig::Funder) => u.funder,
+        Role::Signer(Sig::RewardAuth) => u.cfg.reward_emissions_super_authority,
     }
 }
 
@@ -249,6 +251,10 @@ fn subs(role: &Role, u1: &Uni, u2: &Uni, l: &Ledger) -> Vec<Sub> {
                 must(u1.cfg.fee_authority, "U1 fee authority (signing)".into());
             }
             Sig::Funder => v.push(Sub { key: u2.funder, what: "U2 funder (signing)".into(), expect: Expect::Free(FREE_FUNDER) }),
+            Sig::RewardAuth => {
+                must(u2.cfg.reward_emissions_super_authority, "U2's reward authority (signing)".into());
+                must(u1.cfg.fee_authority, "U1 fee authority (signing)".into());
+            }
         },
     }
     v
@@ -642,6 +648,15 @@ fn case_collect_reward(l: &Ledger, u: &Uni, p: usize, i: usize, idx: usize, v2: 
     Case { ins, name: format!("{ins}[{},pos{i},reward{idx}]", POOL_NAMES[p]), ix, slots }
 }
 
+/// set_reward_emissions(_v2): moves no funds, but its vault slot decides whether "the vault holds a day of emissions" is checked
+/// against the right account ("a reward vault of another reward index" is named in the statement).
+fn case_set_reward_emissions(u: &Uni, p: usize, idx: usize, v2: bool) -> Case {
+    let ix = ix_set_reward_emissions(&u.pools[p], u.cfg.reward_emissions_super_authority, u.rvault[p][idx], idx as u8, (7u128 << 64) + idx as u128 + v2 as u128, v2);
+    let ins = if v2 { "set_reward_emissions_v2" } else { "set_reward_emissions" };
+    let slots = vec![(s("whirlpool"), Role::Pool(p)), (s("reward_authority"), Role::Signer(Sig::RewardAuth)), (s("reward_vault"), Role::RewardVault(p, idx))];
+    Case { ins, name: format!("{ins}[{},reward{idx}]", POOL_NAMES[p]), ix, slots }
+}
+
 fn case_collect_protocol_fees(u: &Uni, p: usize, v2: bool) -> Case {
     let pool = &u.pools[p];
     let ix = ix_collect_protocol_fees(pool, u.cfg.collect_protocol_fees_authority, u.feedest.of(&pool.mint_a), u.feedest.of(&pool.mint_b), v2);
@@ -731,6 +746,11 @@ fn cases(l: &Ledger, u: &Uni, v: Variant, thorough: bool) -> Vec<Case> {
         }
         for p in [P1, PA, P2] {
             out.push(case_collect_protocol_fees(u, p, v2));
+            for idx in 0..3 {
+                if thorough || idx == 1 {
+                    out.push(case_set_reward_emissions(u, p, idx, v2));
+                }
+            }
         }
     }
     out
